@@ -278,7 +278,13 @@ func runC09(l *core.Ledger) {
 			pos := sx.PosOf(ho.op.at)
 			switch h.Field {
 			case "responseMut":
-				if ho.op.kind == "send" && isResponseChan(ho.op.chanT) {
+				if ho.op.kind == "deliver" {
+					if bd := boundedDelivery(l, r); bd.ok {
+						l.OK("C09-W1", key, pos, "delivery under responseMut waits only for a call that is still running, and not beyond its completion (W3)")
+					} else {
+						l.Bad("C09-W1", key, pos, "a delivery that waits for the receiving call is made under responseMut, but "+bd.why)
+					}
+				} else if ho.op.kind == "send" && isResponseChan(ho.op.chanT) {
 					if len(streamingChans) == 0 {
 						l.OK("C09-W1", key, pos, "reply send under responseMut; all reply channels are capacity-bounded (C05-M6)")
 					} else {
@@ -310,15 +316,19 @@ func runC09(l *core.Ledger) {
 		keys = append(keys, k)
 	}
 	sort.Strings(keys)
-	plainSendUnderLock := false
-	for _, ho := range ops {
-		if ho.op.kind == "send" && isResponseChan(ho.op.chanT) && sx.Holds(ho.held, "responseMut", true) {
-			plainSendUnderLock = true
-		}
-	}
+	bd := boundedDelivery(l, r)
 	for _, k := range keys {
-		l.Check(!plainSendUnderLock, "C09-W3", k+"/replyChan-streaming", streamingChans[k], "deliveries to streaming routers cannot block under the lock",
-			"this entry point can register its reply channel as *streaming*: each node may deliver any number of replies into a channel of capacity len(c), and delivery is a plain blocking send under responseMut. Once the call goroutine has returned nobody drains the channel; the node's reader blocks holding responseMut, every later enqueue on that node and the call's own deferred deleteRouter block behind it: the node is disabled permanently")
+		l.Check(bd.ok, "C09-W3", k+"/replyChan-streaming", streamingChans[k], "deliveries to streaming routers are bounded by the completion of the owning call",
+			"this entry point can register its reply channel as *streaming*: each node may deliver any number of replies into a channel of capacity len(c), and "+bd.why+". Once the call goroutine has returned nobody drains the channel; the node's reader blocks holding responseMut, every later enqueue on that node and the call's own deferred deleteRouter block behind it: the node is disabled permanently")
+		if bd.ok {
+			// what the bound does not cover: the consumer is started after the send loop, and the send loop
+			// itself can have to deliver a local answer (enqueue's context / closed cases)
+			for _, site := range bd.sendLoopSites {
+				if strings.HasPrefix(site.key, k) {
+					l.Bad("C09-W3", site.key, site.pos, "the call's own goroutine can have to deliver into its reply channel while it is still handing out requests (enqueue answers a request locally when the call's context or the node has ended) and before the goroutine that receives the replies exists: if a node that already got its request has streamed len(c) replies by then, that delivery waits under the second node's responseMut for a consumer that is only started after the loop - both nodes' channels are stuck")
+				}
+			}
+		}
 	}
 	if len(keys) == 0 {
 		l.OK("C09-W3", "no-streaming-registration", token.NoPos, "no entry point registers a streaming router")
@@ -1037,4 +1047,167 @@ func c09W7(l *core.Ledger, r *rt, roots []goRoot) {
 		}
 	}
 	l.Floor("C09-W7", n, 2, "per-node goroutine roots (sender, receiver)")
+}
+
+// boundedDelivery decides whether deliveries to routers whose calls may be
+// slower than their nodes are bounded by the completion of the owning call:
+//
+//	D1 every plain send to a router lies on the `done == nil` edge of a test of that router's
+//	   done channel: a router that has a done channel is only delivered to through the bounded form
+//	D2 wherever a router can be registered as streaming, the request carries a done channel that is
+//	   non-nil whenever the streaming flag is true
+//	D3 that channel is the completion channel of the Correctable the call's loop completes: closed
+//	   by the final set (C11-K5) that every exit of the loop passes before its deferred clean-up runs
+type boundedDeliveryResult struct {
+	ok            bool
+	why           string
+	sendLoopSites []struct {
+		key string
+		pos token.Pos
+	}
+}
+
+var boundedDeliveryCache = map[*core.Ledger]*boundedDeliveryResult{}
+
+func boundedDelivery(l *core.Ledger, r *rt) *boundedDeliveryResult {
+	if res, ok := boundedDeliveryCache[l]; ok {
+		return res
+	}
+	res := &boundedDeliveryResult{ok: true}
+	boundedDeliveryCache[l] = res
+	fail := func(why string) {
+		if res.ok {
+			res.ok, res.why = false, why
+		}
+	}
+	var rm *routerModel
+	l.With(map[string]string{}, func() { rm = buildRouterModel(l, r, "C09-W3") })
+	if rm == nil {
+		fail("the router map was not found")
+		return res
+	}
+	// D1
+	nBounded := 0
+	for _, d := range rm.deliveries {
+		if d.bounded {
+			nBounded++
+			continue
+		}
+		snd, isSend := d.send.(*ssa.Send)
+		if !isSend {
+			continue
+		}
+		base := ""
+		for _, o := range sx.Origins(snd.Chan) {
+			if o.Kind == sx.KField {
+				base = sx.OriginsString(o.Base)
+			}
+		}
+		nilEdges := nilTestEdgesOn(d.fn, func(v ssa.Value) bool {
+			return sx.All(sx.Origins(v), func(o sx.Origin) bool {
+				return o.Kind == sx.KField && o.Field != nil && o.Field.Name() == "done" && sx.OriginsString(o.Base) == base
+			})
+		}, false)
+		if !edgesDominate(d.fn, nilEdges, sx.NodeOf(d.send)) {
+			fail("delivery is a plain blocking send under responseMut (" + l.Prog.Pos(d.send.Pos()) + " is not restricted to routers without a done channel)")
+		}
+	}
+	if nBounded == 0 {
+		fail("delivery is a plain blocking send under responseMut")
+		return res
+	}
+	// D2, D3
+	for _, ep := range findEntryPointsQuiet(l, r) {
+		for i, e := range ep.enqueues {
+			if b, isConst := constBool(e.Call.Args[3]); isConst && !b {
+				continue
+			}
+			key := fmt.Sprintf("%s/replyChan-streaming/send-loop", ep.key)
+			_ = i
+			lit, okLit := structLiteral(e.Call.Args[1])
+			if !okLit || lit["done"] == nil {
+				fail("the request registered as streaming at " + l.Prog.Pos(e.Pos()) + " carries no done channel: delivery to its router is a plain blocking send")
+				continue
+			}
+			dv := lit["done"]
+			isDonech := func(v ssa.Value) bool {
+				return sx.All(sx.Origins(v), func(o sx.Origin) bool {
+					if o.Kind == sx.KField && o.Field != nil && o.Field.Name() == "donech" {
+						return true
+					}
+					// the Correctable is handed on (to the loop goroutine, to the caller) after this load; its
+					// donech field is written once, at construction (C15-O1), so nobody else's value can be read
+					if o.Kind == sx.KEscaped && o.V != nil && isNamed(o.V.Type(), core.RootModule, "Correctable") {
+						return true
+					}
+					// the channel made for the donech field of the Correctable built in this function
+					if o.Kind != sx.KMake || o.V == nil {
+						return false
+					}
+					stored := false
+					sx.AllInstrs(ep.fn, func(_ sx.Node, in ssa.Instruction) {
+						st, isSt := in.(*ssa.Store)
+						if !isSt {
+							return
+						}
+						fa, isFA := st.Addr.(*ssa.FieldAddr)
+						if !isFA || !isNamed(fa.X.Type(), core.RootModule, "Correctable") {
+							return
+						}
+						if fl := fieldOf(fa.X.Type(), fa.Field); fl != nil && fl.Name() == "donech" && st.Val == o.V {
+							stored = true
+						}
+					})
+					return stored
+				})
+			}
+			switch x := dv.(type) {
+			case *ssa.Phi:
+				for k2, ed := range x.Edges {
+					if c, isC := ed.(*ssa.Const); isC && c.IsNil() {
+						// nil only where the streaming flag is false
+						pred := x.Block().Preds[k2]
+						okEdge := false
+						if ifi, isIf := pred.Instrs[len(pred.Instrs)-1].(*ssa.If); isIf {
+							cv, pos := condOf(ifi)
+							if sameValue(cv, e.Call.Args[3]) || sx.OriginsString(sx.Origins(cv)) == sx.OriginsString(sx.Origins(e.Call.Args[3])) {
+								t, f := sx.CondEdges(ifi)
+								falseEdge := f
+								if !pos {
+									falseEdge = t
+								}
+								okEdge = falseEdge.To == x.Block()
+							}
+						}
+						if !okEdge {
+							fail("the done channel of the request registered at " + l.Prog.Pos(e.Pos()) + " can be nil although the router is streaming")
+						}
+						continue
+					}
+					if !isDonech(ed) {
+						fail("the done channel of the request registered at " + l.Prog.Pos(e.Pos()) + " is not the completion channel of the call's Correctable (" + sx.OriginsString(sx.Origins(ed)) + ")")
+					}
+				}
+			default:
+				if !isDonech(dv) {
+					fail("the done channel of the request registered at " + l.Prog.Pos(e.Pos()) + " is not the completion channel of the call's Correctable")
+				}
+			}
+			// the residual: local answers during the send loop, before the consumer exists
+			if sx.InLoop(sx.NodeOf(e)) || true {
+				res.sendLoopSites = append(res.sendLoopSites, struct {
+					key string
+					pos token.Pos
+				}{key, e.Pos()})
+			}
+		}
+	}
+	return res
+}
+
+// findEntryPointsQuiet: the entry points without recording obligations.
+func findEntryPointsQuiet(l *core.Ledger, r *rt) []*entryPoint {
+	var eps []*entryPoint
+	l.With(map[string]string{}, func() { eps = findEntryPoints(l, r, "C09-W3") })
+	return eps
 }
